@@ -52,7 +52,7 @@ impl SnmpV1ClientSocket {
         Ok(self.io.as_raw_fd())
     }
     /// Verification hook: (request id, community)
-    #[cfg(gufo_snmp_verif)]
+    #[cfg(all(gufo_snmp_verif, not(gufo_snmp_verif_nostate)))]
     fn verif_state(&self) -> PyResult<(i64, String)> {
         Ok((self.request_id.verif_value(), self.community.clone()))
     }
